@@ -52,7 +52,7 @@ impl Prop for C17 {
     }
 
     fn cases(tier: Tier) -> u64 {
-        tier.pick(100_000, 4_000_000)
+        tier.pick(200_000, 4_000_000)
     }
 
     fn strategy(tier: Tier) -> BoxedStrategy<Case> {
